@@ -99,7 +99,8 @@ Section(kind) == [kind |-> kind, name |-> "", name_regexp |-> NoRe, name_not_reg
 (* kind = "struct" | "union" | "enum" | "typedef" | "base" | "array" | "ptr" | "const" | "fnptr" | "fntype"; *)
 (* file = path of the defining file as DWARF records it ("" = no location), base = its last component;       *)
 (* viaPtr = some pointer diff node has this type (behind qualifiers / typedefs) as pointed-to type;            *)
-(* old / new = laid-out data members [n, off, size] (bits), struct changes only.                              *)
+(* old / new = laid-out data members [n, off, size, tsize] (bits; size = the bits the member occupies, tsize = *)
+(* the size of its declared type: they differ for a bit-field), struct changes only.                          *)
 TypeChange(name, kind, file, base, viaPtr) ==
   [name |-> name, kind |-> kind, file |-> file, base |-> base, viaPtr |-> viaPtr, old |-> <<>>, new |-> <<>>, sizeOld |-> 0, sizeNew |-> 0]
 MemNames(ms) == {ms[i].n : i \in 1..Len(ms)}
@@ -155,7 +156,7 @@ EvalCode(bd, c) ==
          IF bd.m \notin MemNames(c.old) THEN Fail
          ELSE LET i == CHOOSE i \in 1..Len(c.old) : c.old[i].n = bd.m
               IN IF i < Len(c.old) THEN c.old[i + 1].off             \* get_next_data_member_offset
-                 ELSE c.old[i].off + c.old[i].size
+                 ELSE c.old[i].off + c.old[i].tsize                    \* ... + (*it)->get_type()->get_size_in_bits()
 (* the loop over the ranges for one inserted member at offset off: `break` on a boundary that does not evaluate *)
 RECURSIVE RangeLoopCode(_, _, _, _, _)
 RangeLoopCode(rs, i, c, off, matched) ==
@@ -279,7 +280,7 @@ Align(x, a) == ((x + a - 1) \div a) * a
 RECURSIVE OffsetsOf(_, _, _)
 OffsetsOf(sizes, i, at) == IF i > Len(sizes) THEN <<>> ELSE <<Align(at, sizes[i])>> \o OffsetsOf(sizes, i + 1, Align(at, sizes[i]) + sizes[i])
 MaxOf(S) == CHOOSE x \in S : \A y \in S : y <= x
-Members(names, sizes) == LET o == OffsetsOf(sizes, 1, 0) IN [i \in 1..Len(sizes) |-> [n |-> names[i], off |-> o[i], size |-> sizes[i]]]
+Members(names, sizes) == LET o == OffsetsOf(sizes, 1, 0) IN [i \in 1..Len(sizes) |-> [n |-> names[i], off |-> o[i], size |-> sizes[i], tsize |-> sizes[i]]]
 TotalSize(ms) == IF ms = <<>> THEN 0 ELSE Align(ms[Len(ms)].off + ms[Len(ms)].size, MaxOf({ms[i].size : i \in 1..Len(ms)}))
 MName(i) == CASE i = 1 -> "m1" [] i = 2 -> "m2" [] i = 3 -> "m3" [] i = 4 -> "m4" [] OTHER -> "m9"
 OldNames(n) == [i \in 1..n |-> MName(i)]
